@@ -195,6 +195,18 @@ def get(refs, timeout=None):
     stats["gets"] += 1
     if isinstance(refs, ObjectRef):
         return refs._value()
+    refs = list(refs)
+    # a blocking get on several pending tasks: under Ray they still *run* (and have their side effects) in an
+    # arbitrary order, so the harness-owned scheduler decides the execution order here as well
+    pending = [r for r in refs if not r._ready()]
+    if len(pending) > 1:
+        stats["multi_waits"] += 1
+        stats["max_batch"] = max(stats["max_batch"], len(pending))
+    while pending:
+        idx = 0
+        if _scheduler is not None and len(pending) > 1:
+            idx = int(_scheduler(len(pending), pending)) % len(pending)
+        pending.pop(idx)._run()
     return [r._value() for r in refs]
 
 
